@@ -166,7 +166,8 @@ Proof.
   apply bind_pres_inv in Eq as [(v & h1 & E1 & S1 & E2)|Hs]; [|left; exact Hs|pres_go].
   apply read_values_spec in E1 as [-> [Hv|Hv]]; [|discriminate Hv]. inversion Hv; subst v; clear Hv S1.
   destruct (valid [pid_rule E; password_rule] pw_pairs vals) eqn:Vd; cbn [negb] in E2.
-  2:{ left. revert E2. apply (pres_respond E h_st). }
+  2:{ left. revert E2. generalize h r h'.
+      change (pres h_st (log [] ;;; respond E (bs "register") [(bs "errors", DOther); (bs "preserve", DOther)])). pres_go. }
   cbv zeta in E2.
   destruct ((72 <? length (aget f_password vals))%nat) eqn:Ln.
   { left. revert E2. generalize h r h'. change (pres h_st (backend (e_O E) KHash (@fail unit ErrOther))). pres_go. }
@@ -237,7 +238,7 @@ Proof.
       apply read_values_spec in E1 as [-> [Hv|Hv]]; try discriminate Hv; try reflexivity.
     inversion Hv; subst v; clear Hv.
     destruct (valid [pid_rule E; password_rule] pw_pairs vals) eqn:Vd; cbn [negb] in E2.
-    2:{ assert (Pu : pres uc (respond E (bs "register") [(bs "errors", DOther); (bs "preserve", DOther)])) by pres_go.
+    2:{ assert (Pu : pres uc (log [] ;;; respond E (bs "register") [(bs "errors", DOther); (bs "preserve", DOther)])) by pres_go.
         apply Pu in E2. unfold uc in E2. congruence. }
     destruct Bad as [B|B]; [discriminate B|]. apply Nat.ltb_lt in B. cbv zeta in E2. rewrite B in E2.
     assert (Pu : pres uc (backend (e_O E) KHash (@fail unit ErrOther))) by pres_go.
@@ -254,8 +255,11 @@ Proof.
   { intros m Hn Hm Em. split; [eapply Hm; eauto|].
     destruct (Hn _ _ _ Em) as [(ls & lc & S1 & _ & F1 & _) _]. eauto. }
   destruct (valid [pid_rule E; password_rule] pw_pairs vals) eqn:Vd; cbn [negb] in E2.
-  2:{ revert E2. apply Mk; [apply neutral_respond|].
-      intros h0 r0 h1 Em. unfold respond, render in Em.
+  2:{ revert E2. apply Mk; [apply evs_bind; [apply evs_log|intros _; apply neutral_respond]|].
+      intros h00 r0 h1 Em. unfold log, modify in Em. cbn [bind] in Em.
+      set (h0 := h00 <| h_logs := h_logs h00 ++ [[]] |>) in Em.
+      change (h_mails h00) with (h_mails h0).
+      unfold respond, render in Em.
       apply bind_inv in Em as [(a & k1 & F1 & F2)|[(e & F1 & ->)|(F1 & ->)]].
       - inversion F2; subst. unfold write_resp, modify in *. simpl.
         assert (h_mails k1 = h_mails h0).
